@@ -203,7 +203,7 @@ class SFixed(Template[_FixedTemplateArg], AssignableType):
                     assert self.left() >= val.left()
                     assert self.right() <= val.right()
 
-                    zeros = self.right() - val.right()
+                    zeros = val.right() - self.right()
 
                     self._val = _qualifier_[raw_type](
                         val._val.resize(self._width, zeros=zeros)
@@ -551,7 +551,7 @@ class UFixed(Template[_FixedTemplateArg], AssignableType):
                     assert self.left() >= val.left()
                     assert self.right() <= val.right()
 
-                    zeros = self.right() - val.right()
+                    zeros = val.right() - self.right()
 
                     self._val = _qualifier_[raw_type](
                         val._val.resize(self._width, zeros=zeros)
